@@ -12,8 +12,11 @@ From Coq Require Import List Bool Arith ZArith.
 From XV Require Import model.JobDir proofs.JobDir_lemmas.
 Import ListNotations.
 
-(* the death of the scheduler ends no job process, changes no marker, and disables no effect of a
-   job process; the only lock it frees is its own *)
+(* SANITY LEMMA, not a derived fact: in this model the death of a scheduler IS the record update "its program
+   counter := SDead, its lock freed" (LCrash), so survival of the job processes is the ASSUMPTION "every job
+   process has its own session" written as a theorem: it ends no job process, changes no marker, disables no
+   effect of a job process.  The launcher establishes the assumption since 027db70 (start_new_session=True);
+   C11_group_signal_refuted below shows what happens without it.                                          *)
 Theorem C11_jobs_survive : forall s g j,
   let st := jd g j in let st' := jd (crash_of s g) j in
   (forall p, procs st' p = procs st p) /\
@@ -43,8 +46,8 @@ Theorem C11_final_all_done : forall deps n g, greachable1 deps g -> gfinal n g -
 Proof. exact final_all_done. Qed.
 Print Assumptions C11_final_all_done.
 
-(* two runs to a final state - one of them may be the run in which nothing was killed - give the
-   same results *)
+(* COROLLARY of C11_final_all_done (both sides are "every job DONE with its marker"): two runs to a final
+   state - one of them may be the run in which nothing was killed - give the same results *)
 Theorem C11_same_results : forall deps n g1 g2,
   greachable1 deps g1 -> greachable1 deps g2 -> gfinal n g1 -> gfinal n g2 -> no_abort g1 -> no_abort g2 ->
   results n g1 = results n g2.
@@ -86,3 +89,35 @@ Theorem C11_empty_pid_stuck_refuted : exists st,
   (forall l, progress_label l = true -> lstep_prefix l st = None).
 Proof. exact empty_pid_stuck_refuted. Qed.
 Print Assumptions C11_empty_pid_stuck_refuted.
+
+(* "running jobs are adopted rather than relaunched" (statement first proved by the audit): while the pid file
+   names a live process the scheduler is nowhere between a negative aio_process() and Popen, and Popen is not
+   enabled *)
+Theorem C11_adopted_not_relaunched : forall deps g, greachable1 deps g ->
+  forall j p, pidf (jd g j) = PFSome p -> alive (procs (jd g j) p) = true ->
+  sprelaunch (scheds (jd g j) 0) = false /\ lstep (LSpawn 0) (jd g j) = None.
+Proof. exact adopted_not_relaunched. Qed.
+Print Assumptions C11_adopted_not_relaunched.
+
+(* the faithful exception: scheduler killed between Popen and the write of the pid file.  The job runs, no pid
+   file names it, the next run is on the launch path (it will start a second process, which queues behind the
+   lock and skips the body: C11_exactly_once_final still gives one body) *)
+Theorem C11_orphan_not_adopted : exists g,
+  greachable1 deps_one g /\ procs (jd g 0) 0 = PBody /\ pidf (jd g 0) = PFNone /\
+  scheds (jd g 0) 0 = SLock /\ sprelaunch (scheds (jd g 0) 0) = true /\ launches (jd g 0) = 1.
+Proof. exact orphan_not_adopted. Qed.
+Print Assumptions C11_orphan_not_adopted.
+
+(* record of the defect of the pinned launcher (Popen without start_new_session): a signal delivered to the
+   process group of the experiment (Ctrl-C, hang-up) reaches the running job; nothing fails by itself and nobody
+   kills a job process (quiet_move), yet the job process is gone with a failure marker, and the experiment run
+   again executes the body a second time.  Every theorem above is about gstep1, whose crash (g1_crash) touches no
+   job process: they all need the repaired launcher.                                                          *)
+Theorem C11_group_signal_refuted : exists g gmid,
+  grun_group deps_one (firstn 18 mv_group_signal) gfresh0 = Some gmid /\
+  grun_group deps_one mv_group_signal gfresh0 = Some g /\
+  forallb gmove_single mv_group_signal = true /\ forallb quiet_move mv_group_signal = true /\
+  procs (jd gmid 0) 0 = PExit XFail /\ failed (jd gmid 0) = true /\ done (jd gmid 0) = false /\
+  gfinal 1 g /\ scheds (jd g 0) 0 = SFinal VDone /\ done (jd g 0) = true /\ body_runs (jd g 0) = 2.
+Proof. exact group_signal_refuted. Qed.
+Print Assumptions C11_group_signal_refuted.
